@@ -49,10 +49,17 @@ func (v pxVal) MayBeZero() bool {
 }
 
 type pxFrame struct {
-	fn   *ssa.Function
-	bind map[ssa.Value]ssa.Value // FreeVar -> the cell it denotes in the enclosing frame
-	args map[ssa.Value]pxVal     // Parameter -> value
-	top  bool
+	fn    *ssa.Function
+	bind  map[ssa.Value]ssa.Value // FreeVar -> the cell it denotes in the enclosing frame
+	args  map[ssa.Value]pxVal     // Parameter -> value
+	fargs map[ssa.Value]pxClosure // Parameter -> the function literal passed for it
+	top   bool
+}
+
+// pxClosure: a function literal with its captured cells already resolved.
+type pxClosure struct {
+	fn    *ssa.Function
+	cells []ssa.Value
 }
 
 type PXState struct {
@@ -96,6 +103,7 @@ type PX struct {
 	OnCall   func(st *PXState, call ssa.CallInstruction)
 	OnEdge   func(st *PXState, from, to *ssa.BasicBlock)
 	OnReturn func(st *PXState, fr *pxFrame, r *ssa.Return)
+	FollowHelpers bool // also walk into unexported go-nfsd functions called statically
 	budget   int
 	Exceeded bool
 	visited  map[string]bool
@@ -108,7 +116,7 @@ func (p *PX) Run(fn *ssa.Function) {
 	if fn == nil || fn.Blocks == nil {
 		return
 	}
-	fr := &pxFrame{fn: fn, bind: map[ssa.Value]ssa.Value{}, args: map[ssa.Value]pxVal{}, top: true}
+	fr := &pxFrame{fn: fn, bind: map[ssa.Value]ssa.Value{}, args: map[ssa.Value]pxVal{}, fargs: map[ssa.Value]pxClosure{}, top: true}
 	st := &PXState{Flags: map[string]bool{}, cells: map[ssa.Value]pxVal{}, regs: map[ssa.Value]pxVal{}}
 	p.block(fr, fn.Blocks[0], nil, st, 0)
 }
@@ -270,18 +278,54 @@ func (p *PX) from(fr *pxFrame, b *ssa.BasicBlock, idx int, st *PXState, depth in
 					delete(st.cells, c)
 				}
 			}
-			if cf, binds := closureCallee(x); cf != nil && cf.Blocks != nil && depth < 3 {
-				nf := &pxFrame{fn: cf, bind: map[ssa.Value]ssa.Value{}, args: map[ssa.Value]pxVal{}}
+			var cf *ssa.Function
+			var cells []ssa.Value
+			if f, binds := closureCallee(x); f != nil {
+				cf = f
+				for _, b := range binds {
+					cells = append(cells, p.cellOf(fr, b))
+				}
+			} else if pm, isP := x.Call.Value.(*ssa.Parameter); isP {
+				// a function literal handed down as an argument ("locked(func() { ... })")
+				if pc, ok := fr.fargs[pm]; ok {
+					cf, cells = pc.fn, pc.cells
+				}
+			}
+			if cf == nil && p.FollowHelpers {
+				if h := x.Call.StaticCallee(); h != nil && IsRepoFunc(h) && h.Blocks != nil && h.Parent() == nil && isPrivateHelper(h) {
+					cf = h
+				}
+			}
+			if cf != nil && cf.Blocks != nil && depth < 4 {
+				nf := &pxFrame{fn: cf, bind: map[ssa.Value]ssa.Value{}, args: map[ssa.Value]pxVal{}, fargs: map[ssa.Value]pxClosure{}}
 				for j, fv := range cf.FreeVars {
-					if j < len(binds) {
-						if c := p.cellOf(fr, binds[j]); c != nil {
-							nf.bind[fv] = c
-						}
+					if j < len(cells) && cells[j] != nil {
+						nf.bind[fv] = cells[j]
 					}
 				}
 				for j, pm := range cf.Params {
-					if j < len(x.Call.Args) {
-						nf.args[pm] = p.Eval(fr, st, x.Call.Args[j])
+					if j >= len(x.Call.Args) {
+						continue
+					}
+					a := x.Call.Args[j]
+					nf.args[pm] = p.Eval(fr, st, a)
+					switch av := a.(type) {
+					case *ssa.MakeClosure:
+						if f2, ok := av.Fn.(*ssa.Function); ok {
+							pc := pxClosure{fn: f2}
+							for _, b := range av.Bindings {
+								pc.cells = append(pc.cells, p.cellOf(fr, b))
+							}
+							nf.fargs[pm] = pc
+						}
+					case *ssa.Function:
+						if av.Parent() != nil {
+							nf.fargs[pm] = pxClosure{fn: av}
+						}
+					case *ssa.Parameter:
+						if pc, ok := fr.fargs[av]; ok {
+							nf.fargs[pm] = pc
+						}
 					}
 				}
 				var out []*PXState
